@@ -100,6 +100,27 @@ def r0(ctx: Ctx) -> None:
     fin = [n for n in inside if n.kind == "stmt" and isinstance(n.ast, ast.Assign) and norm_text(n.ast.targets[0]).endswith(".parent_snapshot_id")]
     ctx.ob("C15.R0", f, "the survivor's parent is set to the walk's result", fin[0] if fin else None,
            bool(fin) and (isinstance(fin[0].ast.value, ast.Name) or id(fin[0].ast.value) in g.inlined_calls), "")  # type: ignore[union-attr]
+    # corrupt lineage (a cycle among removed snapshots): the walk stops AND the link is dropped - the survivor must not be left
+    # pointing at a removed snapshot.  Scenario: the walk stands on a removed id it has already visited.
+    if wh and steps and fin:
+        wv = steps[0].ast.targets[0].id  # type: ignore[union-attr]
+        seen_vars = {norm_text(c.ast.func.value) for c in g.calls() if isinstance(c.ast, ast.Call) and isinstance(c.ast.func, ast.Attribute)
+                     and c.ast.func.attr == "add" and c.ast.args and isinstance(c.ast.args[0], ast.Name) and c.ast.args[0].id == wv}
+        if seen_vars:
+            env = {wv: 5}
+            env.update({k: (7,) for k in kept_vars})
+            env.update({k: frozenset({5}) for k in seen_vars})
+            res = explore(ctx, f, [wh[0].id], env=env, stop=[x.id for x in fin] + [ol.id])
+            vals = set()
+            for end, st_, _as in res:
+                if end in {x.id for x in fin}:
+                    scen = dict(env)
+                    scen.update({k: v for k, v in st_.items() if isinstance(k, str) or (isinstance(k, tuple) and k[0] == "ret")})  # type: ignore[misc]
+                    vals.add(concrete_eval(ctx, f, g.nodes[end].ast.value, scen, end))  # type: ignore[union-attr]
+            if vals and UNKNOWN not in vals and not any(hasattr(v, "key") for v in vals):
+                ctx.ob("C15.R0", f, "a cycle among removed snapshots drops the link", fin[0], vals == {None},
+                       f"walk standing on an already visited removed id stores parent = {sorted(map(repr, vals))} (expected None: every parent "
+                       "link names a retained true ancestor or nothing)", text="cycle")
 
 
 def check(ctx: Ctx) -> None:
@@ -822,6 +843,41 @@ def r6(ctx: Ctx) -> None:
                    f"bound `{norm_text(bound)}` derives from {sorted(n for n in org['names'] if 'properties' in n)}: a commit that "
                    "lowers write.metadata.previous-versions-max must already honour it (the written version would otherwise carry "
                    "more log entries than it allows itself)")
+    # a configured bound of 1 is a bound: whatever guards the trim lets max_entries == 1 through (`1 < max` would let the log of a
+    # table configured to keep ONE previous version grow for ever)
+    for sn in [n for n in g.nodes if n.kind in ("stmt", "return") and n.ast is not None and any(x in slices for x in ast.walk(n.ast))]:
+        for sx in [x for x in ast.walk(sn.ast) if x in slices]:
+            bound = tails.get(id(sx))
+            if bound is None or not isinstance(bound, ast.Name):
+                continue
+            lows = []
+            for pol, e_, _a in facts_at(ctx, f, sn):
+                if not isinstance(e_, ast.Compare) or pol not in ("true", "false"):
+                    continue
+                items = [e_.left] + list(e_.comparators)
+                for i_, op in enumerate(e_.ops):
+                    a_, b_ = items[i_], items[i_ + 1]
+                    if pol == "false" and len(e_.ops) > 1:
+                        continue
+                    o = type(op)
+                    if pol == "false":
+                        o = {ast.Lt: ast.GtE, ast.LtE: ast.Gt, ast.Gt: ast.LtE, ast.GtE: ast.Lt}.get(o)  # type: ignore[assignment]
+                    if o is None:
+                        continue
+                    if isinstance(a_, ast.Name) and a_.id == bound.id and isinstance(b_, ast.Constant) and isinstance(b_.value, int):
+                        if o is ast.Gt:
+                            lows.append(b_.value + 1)
+                        elif o is ast.GtE:
+                            lows.append(b_.value)
+                    if isinstance(b_, ast.Name) and b_.id == bound.id and isinstance(a_, ast.Constant) and isinstance(a_.value, int):
+                        if o is ast.Lt:
+                            lows.append(a_.value + 1)
+                        elif o is ast.LtE:
+                            lows.append(a_.value)
+            if lows:
+                ctx.ob("C15.R6", f, "a bound of 1 trims the log", sn, max(lows) <= 1,
+                       f"the trim runs for `{bound.id}` >= {max(lows)}" + ("" if max(lows) <= 1 else ": with write.metadata.previous-versions-max = 1 "
+                                                                             "the log is never trimmed and grows without bound"), text="bound-1")
     tv = _entry_value("timestamp-ms")
     ok = tv is not None and "base_metadata.last_updated_ms" in norm_text(tv)
     ctx.ob("C15.R6", f, "entry timestamp is the superseded version's stamp", None, ok, "")
